@@ -3117,6 +3117,486 @@ def check_buffer_moves(ctx, tu):
     ctx.floor(R, n, 2, 'move constructor and move assignment of the BufferWriter buffer type')
 
 
+# =====================================================================================================
+#  R-C15-8: the cached (pointer, size) of the buffer type describes its storage at every exit of every member
+# =====================================================================================================
+STORAGE_QUERIES = {'data', 'size', 'empty', 'begin', 'end', 'cbegin', 'cend', 'capacity', 'operator[]', 'at', 'front', 'back',
+                   'max_size', 'rbegin', 'rend', 'get_allocator'}
+# method -> may it throw (allocation); the strong guarantee leaves the storage as it was when it does
+STORAGE_MUTATORS = {'resize': True, 'reserve': True, 'push_back': True, 'emplace_back': True, 'assign': True, 'insert': True,
+                    'emplace': True, 'clear': False, 'shrink_to_fit': False, 'pop_back': False, 'erase': False, 'swap': False}
+
+
+def buffer_type(tu):
+    """(type name, record, AbstractArray base, name of the std::vector member that owns the bytes) of BufferWriter::buffer"""
+    wr = [r for r in tu.records.values() if r['q'] == NET + 'BufferWriter']
+    if not wr:
+        return None
+    bt = None
+    for fd in wr[0]['fields']:
+        m = re.match(r'^(?:const )?std::shared_ptr<(rkcommon::utility::\w+<.*>)>$', fd['ct'])
+        if m:
+            bt = m.group(1)
+    rec = tu.records_by_type.get(bt) if bt else None
+    if rec is None:
+        return None
+    base = [b for b in rec.get('bases', []) if b.startswith(UTIL + 'AbstractArray<')]
+    vecs = [fd for fd in rec['fields'] if fd['ct'].startswith('std::vector<')]
+    return bt, rec, (base[0] if base else None), (vecs[0]['name'] if len(vecs) == 1 else None)
+
+
+class SyncState:
+    def __init__(self):
+        self.gen = 0                 # number of changes of the storage so far
+        self.ssize = None            # Poly: number of elements the storage holds now
+        self.view = None             # (pointer value, count Poly, node that set it | None)
+        self.cons = []
+        self.env = {}                # local -> Poly | pointer value
+        self.unsure = None           # reason why the path condition is incomplete
+        self.last = None             # node of the last change of the storage
+        self.fresh = 0
+
+    def copy(self):
+        c = SyncState()
+        c.__dict__.update(self.__dict__)
+        c.cons = list(self.cons)
+        c.env = dict(self.env)
+        return c
+
+
+class SyncEngine:
+    """walks every path of a member function of the buffer type and keeps, side by side, what the storage member holds
+    and what the AbstractArray base was last told (setPtr)"""
+
+    def __init__(self, ctx, tu, bt, storage, R, keyb):
+        self.ctx, self.tu, self.bt, self.storage, self.R, self.keyb = ctx, tu, bt, storage, R, keyb
+        self.problems = []           # (kind, fn, node, text, detail)   kind in violation / undecided
+
+    # ---- values
+    def is_storage(self, e):
+        return e is not None and self.tu.member_of_this(e) == self.storage
+
+    def fresh(self, st, what):
+        st.fresh += 1
+        return Poly.atom(('sym', '%s#%d' % (what, st.fresh)))
+
+    def evaluator(self, st, params):
+        tu = self.tu
+
+        def var(n, did):
+            if did in st.env:
+                return st.env[did] if isinstance(st.env[did], Poly) else None
+            p_ = params.get(did)
+            if p_ is not None and not p_['ct'].rstrip().endswith('*'):
+                return Poly.atom(('param', p_['name']))
+            return None
+
+        def call(n):
+            if n.get('kind') == 'CXXMemberCallExpr':
+                sd, obj, args = tu.call_parts(n)
+                if self.is_storage(obj) and sd.get('q', '').split('::')[-1] == 'size' and not args:
+                    return st.ssize
+            return None
+
+        return Evaluator(tu, var, None, call)
+
+    def ptr(self, e, st):
+        tu = self.tu
+        x = tu.strip(e, casts=True)
+        if x is None:
+            return ('other', '?')
+        k = x.get('kind')
+        if k in ('CXXNullPtrLiteralExpr', 'GNUNullExpr') or (k == 'IntegerLiteral' and x.get('value') in ('0', 0)):
+            return ('null',)
+        if k == 'CXXMemberCallExpr':
+            sd, obj, args = tu.call_parts(x)
+            if self.is_storage(obj) and sd.get('q', '').split('::')[-1] == 'data' and not args:
+                return ('data', st.gen)
+        if k == 'DeclRefExpr' and isinstance(st.env.get(x.get('referencedDecl', {}).get('id')), tuple):
+            return st.env[x['referencedDecl']['id']]
+        if k == 'DeclRefExpr' and x.get('referencedDecl', {}).get('kind') == 'ParmVarDecl' and \
+                tu.sd(x).get('ct', '').rstrip().endswith('*'):
+            return ('foreign', x['referencedDecl'].get('name', '?'))
+        return ('other', tu.show(x))
+
+    # ---- the invariant
+    def equal(self, a, b, st):
+        """(True | False | None, witness text): is a == b on this path"""
+        d = a - b
+        c = d.const_value()
+        if c is not None:
+            return c == 0, ''
+        for p_, op in st.cons:
+            if op == '==' and (p_ == d or p_ == -d):
+                return True, ''
+        if st.unsure:
+            return None, ''
+        m = small_model(list(st.cons) + [(d, '!=')])
+        if m is None:
+            return None, ''
+        return False, ', '.join('%s = %d' % (atom_name(a_), v_) for a_, v_ in sorted(m.items(), key=repr))
+
+    def synced(self, st):
+        """(verdict, text) -- does the view describe the storage"""
+        pv, cnt, node = st.view
+        if cnt is None:
+            return None, 'the element count given to setPtr has no normal form'
+        eq, wit = self.equal(cnt, st.ssize, st)
+        if eq is None:
+            return None, 'cannot decide whether the count `%s` equals the storage size `%s`' % (show(cnt), show(st.ssize))
+        if eq is False:
+            return False, 'the view reports %s element(s) while the storage holds %s%s' % (
+                show(cnt), show(st.ssize), (' (e.g. %s)' % wit) if wit else '')
+        if cnt.const_value() == 0:
+            return True, ''                  # setPtr normalises an empty view to (nullptr, 0)
+        if pv == ('data', st.gen):
+            return True, ''
+        if pv[0] == 'data':
+            return False, 'the view keeps the pointer the storage had before `%s`, which may have moved the elements' % (
+                self.tu.show(st.last) if st.last else 'it was changed')
+        if pv[0] == 'null':
+            z, wit = self.equal(cnt, Poly.const(0), st)
+            if z is None:
+                return None, 'null pointer with a count `%s` that is not decided' % show(cnt)
+            return False, 'the view has a null pointer for %s element(s)' % show(cnt)
+        if pv[0] == 'foreign':
+            z, wit = self.equal(cnt, Poly.const(0), st)
+            if z is None:
+                return None, 'pointer parameter with a count `%s` that is not decided' % show(cnt)
+            return False, 'the view points at the caller\'s memory `%s`, not at the copy the array owns' % pv[1]
+        return None, 'pointer `%s` given to setPtr is not recognised' % pv[1]
+
+    def view_text(self, st):
+        pv, cnt, node = st.view
+        if node is None:
+            return 'the (pointer, size) it had on entry'
+        return '`%s`' % self.tu.show(node)
+
+    # ---- events
+    def throw_point(self, fn, st, n, what):
+        if fn.get('ctor'):
+            return            # an exception leaving a constructor destroys the object: nobody sees the view
+        ok, text = self.synced(st)
+        if ok:
+            return
+        if ok is None:
+            self.problems.append(('undecided', fn, n, 'state of the view when %s throws: %s' % (what, text), None))
+            return
+        self.problems.append(('violation', fn, n, 'when %s throws (allocation failure, std::length_error for an oversized request) '
+                              'the array is left with %s although the storage is unchanged: %s. The object stays in use after the '
+                              'exception (BufferWriter::write sizes its next resize from buffer->size() and so overwrites / '
+                              'truncates what was written, readers and copies see a different extent)'
+                              % (what, self.view_text(st), text), 'desynced-on-throw'))
+
+    def exit_point(self, fn, st, n):
+        ok, text = self.synced(st)
+        if ok:
+            return
+        if ok is None:
+            self.problems.append(('undecided', fn, n, 'state of the view on return: %s' % text, None))
+            return
+        self.problems.append(('violation', fn, n, 'returns with the view set by %s, but %s: the cached extent no longer describes the '
+                              'storage (copies and moves re-point to dataBuf.size(), BufferWriter::write appends at size(), a '
+                              'reader stops at size(): bytes appear or vanish)' % (self.view_text(st), text), 'desynced-on-exit'))
+
+    def built_size(self, e, st, params):
+        """number of elements of the vector built by `std::vector<T>(p, p + n)`, else None"""
+        tu = self.tu
+        x = tu.strip(e, casts=True)
+        hops = 0
+        while x is not None and hops < 5 and x.get('kind') in ('CXXBindTemporaryExpr', 'MaterializeTemporaryExpr', 'ExprWithCleanups',
+                                                                'CXXFunctionalCastExpr') and tu.kids(x):
+            x = tu.strip(tu.kids(x)[0], casts=True)
+            hops += 1
+        if x is None or x.get('kind') not in ('CXXTemporaryObjectExpr', 'CXXConstructExpr'):
+            return None
+        as_ = [a for a in tu.kids(x) if a.get('kind') != 'CXXDefaultArgExpr']
+        if len(as_) == 1 and as_[0].get('kind') in ('CXXTemporaryObjectExpr', 'CXXConstructExpr', 'CXXBindTemporaryExpr',
+                                                    'MaterializeTemporaryExpr'):
+            return self.built_size(as_[0], st, params)
+        if len(as_) != 2:
+            return None
+        lo, hi = tu.strip(as_[0], casts=True), tu.strip(as_[1], casts=True)
+        if hi is not None and hi.get('kind') == 'BinaryOperator' and hi.get('opcode') == '+' and tu.ref_decl(lo) is not None and \
+                tu.ref_decl(tu.kids(hi)[0]) == tu.ref_decl(lo):
+            return self.evaluator(st, params).ev(tu.kids(hi)[1])
+        return None
+
+    def mutate(self, fn, st, n, name, args, params, throws):
+        if throws:
+            self.throw_point(fn, st, n, '`%s`' % self.tu.show(n))
+        ev = self.evaluator(st, params)
+        old = st.ssize
+        st.gen += 1
+        st.last = n
+        if name == 'resize' and args:
+            v = ev.ev(args[0])
+            st.ssize = v if v is not None else self.fresh(st, 'n')
+        elif name == 'clear':
+            st.ssize = Poly.const(0)
+        elif name in ('shrink_to_fit', 'reserve'):
+            st.ssize = old
+        elif name in ('push_back', 'emplace_back'):
+            st.ssize = old + 1
+        elif name == 'pop_back':
+            st.ssize = old - 1
+        else:
+            v = self.built_size(args[0], st, params) if name == 'operator=' and args else None
+            st.ssize = v if v is not None else self.fresh(st, 'n')
+
+    def run(self, fn, st0, depth=0):
+        """exit states of fn entered in st0; throw points are judged on the way"""
+        tu = self.tu
+        g = tu.cfg(fn)
+        if g is None:
+            raise Undecided('no CFG for %s' % fn['q'])
+        if g.back_edges():
+            raise Undecided('%s contains a loop' % short(fn['q']))
+        params = {p_['id']: p_ for p_ in fn.get('params', [])}
+        outs = []
+        work = [(g.entry, 0, st0)]
+        steps = 0
+        while work:
+            bid, start, st = work.pop()
+            steps += 1
+            if steps > 2000:
+                raise Undecided('too many paths in %s' % short(fn['q']))
+            blk = g.blocks[bid]
+            done = False
+            for ei, e in enumerate(blk.el):
+                if ei < start:
+                    continue
+                if e[0] == 'I':
+                    if e[3] == self.storage:
+                        init = tu.node(e[1])
+                        x = tu.strip(init, casts=True) if init is not None else None
+                        st.gen += 1
+                        st.last = init
+                        has_args = x is not None and x.get('kind') != 'CXXDefaultInitExpr' and \
+                            [a for a in tu.kids(x) if a.get('kind') != 'CXXDefaultArgExpr']
+                        v = self.built_size(x, st, params) if has_args else None
+                        st.ssize = v if v is not None else self.fresh(st, 'n') if has_args else Poly.const(0)
+                    elif e[3] not in ('<base>',) and e[2] is None:
+                        raise Undecided('delegating / unrecognised initialiser in %s' % short(fn['q']))
+                    continue
+                if e[0] != 'S':
+                    continue
+                n = tu.node(e[1])
+                if n is None:
+                    continue
+                k = n.get('kind')
+                if k == 'DeclStmt':
+                    for vd in n.get('inner', ()):
+                        if isinstance(vd, dict) and vd.get('kind') == 'VarDecl' and tu.kids(vd):
+                            init = tu.kids(vd)[0]
+                            ct = vd.get('type', {}).get('qualType', '')
+                            if ct.rstrip().endswith('*') or ct.rstrip().endswith('* const'):
+                                st.env[vd['id']] = self.ptr(init, st)
+                            else:
+                                v = self.evaluator(st, params).ev(init)
+                                if v is not None:
+                                    st.env[vd['id']] = v
+                    continue
+                if k == 'ReturnStmt':
+                    outs.append(st)
+                    done = True
+                    break
+                if k == 'CXXThrowExpr':
+                    self.throw_point(fn, st, n, '`%s`' % tu.show(n))
+                    done = True
+                    break
+                if k == 'CXXNewExpr' or (k in ('CXXTemporaryObjectExpr', 'CXXConstructExpr') and
+                                         tu.sd(n).get('ct', '').replace('const ', '').startswith('std::vector<') and
+                                         [a for a in tu.kids(n) if a.get('kind') != 'CXXDefaultArgExpr']):
+                    src = tu.strip(tu.kids(n)[0], casts=True) if tu.kids(n) else None
+                    moved = src is not None and src.get('kind') == 'CallExpr' and tu.sd(src).get('q') == 'std::move'
+                    if not moved:
+                        self.throw_point(fn, st, n, 'the allocation in `%s`' % tu.show(n))
+                    continue
+                if k == 'CallExpr' and tu.sd(n).get('q') in ('std::move', 'std::swap', 'std::exchange'):
+                    if any(self.is_storage(a) for a in tu.call_parts(n)[2]):
+                        self.mutate(fn, st, n, 'moved', [], params, False)
+                    continue
+                if k == 'CXXOperatorCallExpr':
+                    sd, obj, args = tu.call_parts(n)
+                    nm = sd.get('q', '').split('::')[-1]
+                    if self.is_storage(obj):
+                        if nm == 'operator=':
+                            a0 = tu.strip(args[0], casts=True) if args else None
+                            rvalue = a0 is not None and (
+                                (a0.get('kind') == 'CallExpr' and tu.sd(a0).get('q') == 'std::move') or
+                                a0.get('kind') in ('CXXTemporaryObjectExpr', 'CXXBindTemporaryExpr', 'CXXConstructExpr',
+                                                   'MaterializeTemporaryExpr', 'CXXFunctionalCastExpr'))
+                            self.mutate(fn, st, n, 'operator=', args, params, not rvalue)
+                        elif nm not in STORAGE_QUERIES:
+                            raise Undecided('`%s` on the storage member is not modelled' % tu.show(n))
+                    continue
+                if k == 'CXXMemberCallExpr':
+                    sd, obj, args = tu.call_parts(n)
+                    nm = sd.get('q', '').split('::')[-1]
+                    if self.is_storage(obj):
+                        if nm in STORAGE_QUERIES:
+                            continue
+                        if nm not in STORAGE_MUTATORS:
+                            raise Undecided('`%s` on the storage member is not modelled' % tu.show(n))
+                        self.mutate(fn, st, n, nm, args, params, STORAGE_MUTATORS[nm])
+                        continue
+                    if obj is not None and tu.is_this(tu.strip(obj, casts=True)):
+                        if nm == 'setPtr' and len(args) == 2:
+                            st.view = (self.ptr(args[0], st), self.evaluator(st, params).ev(args[1]), n)
+                            continue
+                        callee = tu.callee_fn(n)
+                        if callee is not None and callee.get('rect') == self.bt and not callee.get('const'):
+                            if tu.cfg(callee) is None or depth > 3:
+                                raise Undecided('member %s called on this has no body in the facts' % short(callee['q']))
+                            sub = st.copy()
+                            saved_env = st.env
+                            sub.env = {}
+                            ev_ = self.evaluator(st, params)
+                            for p_, a in zip(callee.get('params', []), args):
+                                if p_['ct'].rstrip().endswith('*'):
+                                    sub.env[p_['id']] = self.ptr(a, st)
+                                else:
+                                    v = ev_.ev(a)
+                                    if v is not None:
+                                        sub.env[p_['id']] = v
+                            for s2 in self.run(callee, sub, depth + 1):
+                                s2.env = dict(saved_env)
+                                work.append((bid, ei + 1, s2))
+                            done = True
+                            break
+                    continue
+            if done:
+                continue
+            succ = list(blk.succ)
+            if bid == g.exit or not any(s_ is not None for s_ in succ):
+                outs.append(st)
+                continue
+            if blk.noret:
+                self.throw_point(fn, st, tu.node(blk.el[-1][1]) if blk.el else None, 'a call that does not return')
+                continue
+            if blk.cond and len(succ) == 2:
+                c = tu.strip(tu.node(blk.cond))
+                while c is not None and c.get('kind') == 'BinaryOperator' and c.get('opcode') in ('&&', '||'):
+                    c = tu.strip(tu.kids(c)[1])
+                for idx, s2 in self.branches(c, st, params):
+                    if succ[idx] is None:
+                        continue
+                    if succ[idx] == g.exit:
+                        outs.append(s2)
+                    else:
+                        work.append((succ[idx], 0, s2))
+                continue
+            live = [s_ for s_ in succ if s_ is not None]
+            if len(live) != 1:
+                raise Undecided('multi-way branch in %s' % short(fn['q']))
+            if live[0] == g.exit:
+                outs.append(st)
+            else:
+                work.append((live[0], 0, st))
+        return outs
+
+    def branches(self, c, st, params):
+        """[(successor index, state)]: 0 = condition true, 1 = false"""
+        tu = self.tu
+        x = tu.strip(c, casts=True)
+        neg = False
+        while x is not None and x.get('kind') == 'UnaryOperator' and x.get('opcode') == '!':
+            neg = not neg
+            x = tu.strip(tu.kids(x)[0], casts=True)
+        rel = None
+        if x is not None and x.get('kind') == 'CXXMemberCallExpr':
+            sd, obj, args = tu.call_parts(x)
+            if self.is_storage(obj) and sd.get('q', '').split('::')[-1] == 'empty':
+                rel = [(st.ssize, '==')]
+        if rel is None and x is not None and x.get('kind') == 'BinaryOperator' and x.get('opcode') in ('==', '!=') and \
+                any(tu.is_this(k_) for k_ in tu.kids(x)):
+            # self-assignment test: both outcomes are possible and say nothing about the sizes
+            return [(0, st.copy()), (1, st.copy())]
+        if rel is None:
+            rel = self.evaluator(st, params).rel(x) if x is not None else None
+        out = []
+        if rel is None or len(rel) != 1:
+            for idx in (0, 1):
+                s2 = st.copy()
+                s2.unsure = 'condition `%s` is not understood' % tu.show(c)
+                out.append((idx, s2))
+            return out
+        for idx, r_ in ((1 if neg else 0, rel[0]), (0 if neg else 1, negate(rel[0]))):
+            cv = r_[0].const_value()
+            if cv is not None:
+                holds = cv <= 0 if r_[1] == '<=' else cv == 0 if r_[1] == '==' else cv != 0
+                if not holds:
+                    continue
+                out.append((idx, st.copy()))
+                continue
+            s2 = st.copy()
+            s2.cons.append(r_)
+            out.append((idx, s2))
+        return out
+
+
+def check_buffer_sync(ctx, tu):
+    """R-C15-8: BufferWriter / BufferReader, the copy and move operations and every reader of the array work from the
+    (pointer, size) pair cached in the AbstractArray base.  Every member of the buffer type that changes the storage must
+    leave that pair describing the storage -- when it returns, and when the operation that changes the storage throws."""
+    R = 'R-C15-8'
+    ctx.describe(R, 'every non-const member of the array type behind BufferWriter::buffer leaves the cached (pointer, size) equal '
+                 'to (storage.data(), storage.size()) on every return, and also at every point where growing the storage can '
+                 'throw (the strong guarantee leaves the storage unchanged there)')
+    bt_ = buffer_type(tu)
+    if bt_ is None:
+        ctx.broken('%s: type of BufferWriter::buffer not found in the record table' % R)
+        return
+    bt, rec, base, storage = bt_
+    if base is None or storage is None:
+        ctx.undecided(R, short(bt), 'the buffer type does not have the shape "AbstractArray base + one std::vector member"', '?')
+        return
+    fns = [f for f in tu.functions.values() if f.get('rect') == bt and tu.cfg(f) is not None and not f.get('implicit') and
+           not f.get('defaulted') and not f.get('const') and not f.get('static') and '~' not in f['q'].split('::')[-1]]
+    n = 0
+    seen = set()
+    for f in sorted(fns, key=lambda f_: (f_['q'], f_.get('fty', ''))):
+        sig = (f['q'], f.get('fty'))
+        if sig in seen:
+            continue
+        seen.add(sig)
+        nm = f['q'].split('::')[-1]
+        inst = '%s::%s %s' % (short(bt), nm, f.get('fty', ''))
+        keyb = '%s|%s|%s::%s|' % (R, os.path.normpath(tu.fn_file(f)), short(rec['q']), nm)
+        eng = SyncEngine(ctx, tu, bt, storage, R, keyb)
+        st = SyncState()
+        if f.get('ctor'):
+            st.ssize = Poly.const(0)
+            st.view = (('null',), Poly.const(0), None)
+        else:
+            st.ssize = Poly.atom(('sym', 'size0'))
+            st.view = (('data', 0), st.ssize, None)
+        try:
+            for s2 in eng.run(f, st):
+                eng.exit_point(f, s2, s2.view[2] if s2.view[2] is not None else s2.last)
+        except Undecided as u:
+            ctx.undecided(R, inst, str(u), tu.fn_loc(f))
+            n += 1
+            continue
+        n += 1
+        done = set()
+        for kind, fn, node, text, detail in eng.problems:
+            where = tu.loc(node) if node is not None else tu.fn_loc(fn)
+            if (kind, detail, where) in done:
+                continue
+            done.add((kind, detail, where))
+            if kind == 'violation':
+                ctx.violation(R, inst, text, where, key=keyb + detail)
+            else:
+                ctx.undecided(R, inst, text, where)
+        if not eng.problems:
+            ctx.ok(R, inst, 'on every return, and wherever growing `%s` can throw, the view is (%s.data(), %s.size())'
+                   % (storage, storage, storage), tu.fn_loc(f))
+    ctx.floor(R, n, 1, 'storage-changing members of the BufferWriter buffer type (driver probe rkverif::c15x::sync_owned)')
+
+
+
 def check_view_lifetime(ctx, tu):
     """R-C15-7: the view handed out by FixedBufferWriter::getWrittenView caches a pointer into the writer's storage; it
     must keep that *allocation* alive, not merely the array object that currently owns it (which can be re-seated)"""
@@ -3272,6 +3752,7 @@ def run(ctx):
     check_buffers(ctx, tus)
     check_signatures(ctx, tus['drivers/c15_streams.cpp'])
     check_buffer_moves(ctx, tus['drivers/c15_streams.cpp'])
+    check_buffer_sync(ctx, tus['drivers/c15_streams.cpp'])
     check_view_lifetime(ctx, tus['rkcommon/networking/DataStreaming.cpp'])
     if ctx.tier == 'thorough':
         more = ctx.front.parse_many([dict(unit=u, config='DEBUG', std='gnu++17') for u in units])
@@ -3279,6 +3760,7 @@ def run(ctx):
         check_buffers(ctx, tus2)
         check_signatures(ctx, tus2['drivers/c15_streams.cpp'])
         check_buffer_moves(ctx, tus2['drivers/c15_streams.cpp'])
+        check_buffer_sync(ctx, tus2['drivers/c15_streams.cpp'])
         check_view_lifetime(ctx, tus2['rkcommon/networking/DataStreaming.cpp'])
     from rkstatic import selftest
     selftest.run(ctx)
